@@ -25,4 +25,13 @@ C17_Offset == (T.op = "offset" /\ T.err = "") => Exact(T.out) /\ IsKthFollowing(
 C17_Range == (T.op = "range" /\ T.err = "") =>
     /\ \A i \in 1..Len(T.outs) : Exact(T.outs[i])
     /\ IsRange(T.u, In, <<T.t1[1], T.t1[2]>>, T.step, [i \in 1..Len(T.outs) |-> <<T.outs[i][1], T.outs[i][2]>>])
+\* week ranges with a step >= 2: the property does not define the unit number of a week, but under ANY numbering that
+\* grows by one per week inside a year, the listed Sundays of one calendar year are exactly `step` weeks apart
+WeekOuts == [i \in 1..Len(T.outs) |-> <<T.outs[i][1], T.outs[i][2]>>]
+C17_WeekRangeSpacing == (T.op = "wrange" /\ T.err = "") =>
+    /\ \A i \in 1..Len(T.outs) : Exact(T.outs[i]) /\ IsBoundary("week", WeekOuts[i])
+                                   /\ TLe(In, WeekOuts[i]) /\ TLt(WeekOuts[i], <<T.t1[1], T.t1[2]>>)
+    /\ \A i \in 1..(Len(T.outs) - 1) :
+          /\ TLt(WeekOuts[i], WeekOuts[i + 1])
+          /\ YearOf(WeekOuts[i][1]) = YearOf(WeekOuts[i + 1][1]) => WeekOuts[i + 1][1] - WeekOuts[i][1] = 7 * T.step
 =============================================================================
